@@ -495,6 +495,24 @@ def check_dimer(res, direction, k, A0, N0, spell=0):
         except Exception as e:
             ok = False
             _viol(res, "C06|D|integrate|raises", "%s (%s): integrate raised %s: %s" % (what, label, type(e).__name__, e), dict(case, pref=pref), "EXC %s" % type(e).__name__, "a result")
+    if direction == "assoc" and A0:
+        # chempy's own closed form for this step, started at time zero (default and explicit) and at other start times
+        from chempy.kinetics import integrated
+
+        for t0 in (None, 0, 2.5, -1.0, 40.0):
+            res.evaluations += 1
+            try:
+                kw = {} if t0 is None else dict(t0=t0)
+                cf = [float(integrated.dimerization_irrev((t0 or 0) + t, k, A0, **kw)) for t in list(TOUT) + LATE]
+            except Exception as e:
+                cf = "EXC %s" % type(e).__name__
+            want = [A0 / (1 + 2 * k * t * A0) for t in list(TOUT) + LATE]
+            if isinstance(cf, str) or any(abs(x - y) > TOL * max(1.0, A0) for x, y in zip(cf, want)):
+                ok = False
+                _viol(res, "C06|D|closed-form|differs-from-exact-solution", "2 A -> B with k=%r from A0=%r: chempy.kinetics.integrated.dimerization_irrev started at t0=%r gives %r at %r after the start, exact %r" % (
+                    k, A0, t0, cf, list(TOUT) + LATE, want), dict(case, t0=t0), cf, want)
+            else:
+                res.outcomes["D closed form agrees (t0 %s)" % ("default" if t0 is None else "zero" if t0 == 0 else "non-zero")] += 1
     res.outcomes["D %s: %s" % (direction, "ok" if ok else "WRONG")] += 1
 
 
